@@ -395,7 +395,9 @@ static __attribute__((noinline)) var deep_kid(int so) {
   struct Node* k = new(Node_T);
   int oid = new_obj(k, HK_NODE, CL_MANAGED);
   k->canary = CANARY; k->oid = oid;
-  for (int i = 0; i < 3; i++) { k->f[i] = sk->f[i]; O[oid].e[i] = O[so].e[i]; }
+  /* the allocation above is a collection point: a source that was owned through a Box whose owner has just been swept is gone
+   * (the program's own sharing of an owned object) - nothing is copied from it then */
+  if (O[so].alive && !O[so].freed) for (int i = 0; i < 3; i++) { k->f[i] = sk->f[i]; O[oid].e[i] = O[so].e[i]; }
   stat_add("heap.deep_copy_children", 1);
   return k;
 }
@@ -442,7 +444,7 @@ static void Node_Assign(var self, var obj) {
       so = s->f[k] ? pmap_get(hdr_of(s->f[k])) : -1;
       if (so >= 0 && O[so].ptr != s->f[k]) so = -1;
     } else so = O[src].e[k];
-    if (so < 0 || O[so].kind != HK_NODE || !O[so].alive || !obj_traversed(&O[so])) continue;
+    if (so < 0 || O[so].kind != HK_NODE || !O[so].alive || O[so].freed || !obj_traversed(&O[so])) continue;   /* (a stale pointer in the source: not followed) */
     d->f[k] = NULL;
     d->f[k] = deep_kid(so);
     if (g_embed) hold[k] = d->f[k];
